@@ -179,6 +179,14 @@ func init() {
 				}
 				lb, _ := os.ReadFile(pr.out.Race.LogFile)
 				found := false
+				for _, rs := range pr.out.Race.Scenarios {
+					for _, f := range rs.Found {
+						if f.Signature == p.Signature {
+							found = true
+							text = fmt.Sprintf("scenario %s (free-running, -race, attempt %d)\n%s\n", rs.Name, attempt+1, f.Detail)
+						}
+					}
+				}
 				c25RaceFindings(pr.out.Race, string(lb), func(sc string, r *scen.RaceReport) {
 					if r.Signature() == p.Signature {
 						found = true
